@@ -384,11 +384,117 @@ def r5(db, rep):
     rep.floor("R5", "bytes_with_len uses with a locally produced length", n, 6)
 
 
+def r1b(db, rep):
+    rep.rule("R1b", "no element conversion rounds half away from zero: f64::round / f32::round never feed a float→int cast on the "
+                    "conversion paths (ToUint8Clamp rounds ties to even, every other conversion truncates)")
+    n = 0
+    for f in db.fns.values():
+        if not in_scope(f) or not f.mentions("FloatToInt"):
+            continue
+        if f.span.endswith("tests.rs") or "/tests" in f.span:
+            continue
+        name = cname(f.id).split("::{closure")[0]
+        k = 0
+        for b in sorted(f.reachable()):
+            for st in f.blocks[b]["s"]:
+                r = st["r"]
+                if r.get("k") != "cast" or r["ck"] != "FloatToInt" or r["o"][0] == "k":
+                    continue
+                n += 1
+                l = op_local(r["o"])
+                bad = None
+                for x in (roots(f, l) if l is not None else []):
+                    if x[0] == "call" and (callee(x[2]) or "").split("::")[-1] == "round" and \
+                            ("impl f64" in (callee(x[2]) or "") or "impl f32" in (callee(x[2]) or "")):
+                        bad = x[1]
+                rep.ob("R1b", f"{name}:{r['from']}-as-{r['ty']}:{k}:rounding", bad is None,
+                       f"{name} rounds with f64::round (ties away from zero) before converting to {r['ty']} "
+                       f"({f.file}:{st.get('ln')}): ToUint8Clamp rounds ties to even — `new Uint8ClampedArray(new "
+                       f"Float64Array([0.5, 2.5]))` must be [0, 2], and the element store `a[i] = 2.5` already gives 2",
+                       loc=f"{f.file}:{st.get('ln')}")
+                k += 1
+    rep.floor("R1b", "float→int casts on conversion paths", n, 12)
+
+
+def _ctx_calls(f):
+    return [bb for bb, tt in f.calls() if cn(tt) not in NO_SCRIPT_WITH_CONTEXT
+            if any(op_local(a) is not None and f.locals[op_local(a)].replace(" ", "") in
+                   ("&mutboa_engine::context::Context", "&mutboa_engine::Context") for a in tt["args"])]
+
+
+def _slice_producer(f, l, depth=0):
+    """call blocks that produced the byte slice in local l (through Option/Result payloads, reborrows, derefs)"""
+    out = set()
+    for r in roots(f, l):
+        if r[0] == "call":
+            m = cn(r[2]).split("::")[-1]
+            if m in ("deref", "deref_mut", "as_ref", "as_mut", "unwrap", "expect", "as_slice", "as_mut_slice", "borrow",
+                     "borrow_mut") and r[2]["args"] and depth < 4 and op_local(r[2]["args"][0]) is not None:
+                out |= _slice_producer(f, op_local(r[2]["args"][0]), depth + 1)
+            else:
+                out.add(r[1])
+        elif r[0] == "place" and depth < 4:
+            out |= _slice_producer(f, r[1][0], depth + 1)
+    return out
+
+
+def r6(db, rep):
+    rep.rule("R6", "a byte slice obtained after code that can run script is range-indexed only under its own length: in the "
+                   "buffer builtins, every `slice[a..b]` reachable from a call taking `&mut Context` is dominated by a len() of "
+                   "the slice produced by the same call (lengths computed before the script ran may be stale)")
+    n = 0
+    for f in db.fns.values():
+        if not f.id.startswith(("boa_engine::builtins::array_buffer", "boa_engine::builtins::dataview",
+                                "boa_engine::builtins::typed_array", "boa_engine::builtins::atomics")):
+            continue
+        if not f.mentions("ops::index::Index") or "{closure" in f.id:
+            continue
+        if f.span.endswith("tests.rs") or "/tests" in f.span or "::tests::" in f.id:
+            continue
+        ctx = _ctx_calls(f)
+        if not ctx:
+            continue
+        after_ctx = set()
+        for cb in ctx:
+            after_ctx |= f.reach_from(f.succs(cb))
+        name = cname(f.id)
+        lens = []
+        for b, t in f.calls():
+            if (callee(t) or "").endswith("<impl [T]>::len") and t["args"] and op_local(t["args"][0]) is not None:
+                lens.append((b, _slice_producer(f, op_local(t["args"][0]))))
+        k = 0
+        for b, t in f.calls():
+            c = t.get("rf") or callee(t) or ""
+            if not (c.startswith("core::slice::index::<impl core::ops::index::Index") and c.endswith(("::index", "::index_mut"))):
+                continue
+            if len(t["args"]) < 2 or op_local(t["args"][1]) is None or "Range" not in f.locals[op_local(t["args"][1])]:
+                continue
+            if "[u8]" not in f.locals[op_local(t["args"][0])] and "AtomicU8" not in f.locals[op_local(t["args"][0])]:
+                continue
+            if b not in after_ctx:
+                continue
+            prod = _slice_producer(f, op_local(t["args"][0]))
+            if not prod or not (prod & after_ctx):
+                continue          # the slice itself predates the script-capable calls (a borrow is held: nothing can resize it)
+            if all(cn(f.blocks[pb]["t"]).startswith("SharedArrayBuffer::") for pb in prod):
+                continue          # shared buffers only grow: a length read earlier is still inside the block
+            n += 1
+            ok = any(f.dominates(lb, b) and (lp & prod) for lb, lp in lens)
+            rep.ob("R6", f"{name}:range-index:{k}:own-length", ok,
+                   f"{name} indexes a buffer slice by a range ({f.loc(b)}) after script could run, without consulting the "
+                   f"current length of that slice: a species constructor / valueOf that shrinks the resizable buffer makes "
+                   f"the index panic instead of copying the bytes that still exist", loc=f.loc(b))
+            k += 1
+    rep.floor("R6", "range indexes of fresh buffer slices after script-capable calls", n, 2)  # to_buf and from_buf in ArrayBuffer::slice
+
+
 def run(db, rep, tier):
     r1(db, rep)
+    r1b(db, rep)
     r2(db, rep)
     r3(db, rep)
     r4(db, rep)
     r5(db, rep)
+    r6(db, rep)
     rep.assumptions += ["subslice()/subslice_mut() panic on an out-of-range start (slice indexing), they never produce a "
                         "dangling reference"]
